@@ -170,6 +170,8 @@ fn corpora(thorough: bool) -> Vec<(String, bool, Vec<Value>)> {
     ("ties3".to_string(), false, vec![json!({"_id": "A", "body": "a", "kw": "x", "n": 1}), json!({"_id": "B", "body": "a", "kw": "x", "n": 1}), json!({"_id": "C", "body": "a", "kw": "y", "n": 2})]),
     ("mixed3".to_string(), false, vec![json!({"_id": "A", "body": "a b c", "kw": ["x", "y"], "n": [1, 3]}), json!({"_id": "B", "body": "a"}), json!({"_id": "C", "body": "b caf\u{e9} a", "kw": "y", "n": 2})]),
   ];
+  // multi-byte text (2, 3 and 4 byte sequences) in id, text and keyword values
+  v.push(("utf8".to_string(), false, vec![json!({"_id": "\u{e9}1", "body": "un caf\u{e9} cr\u{e8}me", "kw": "\u{434}\u{43e}\u{43c}", "n": 1}), json!({"_id": "\u{65e5}\u{672c}", "body": "\u{65e5}\u{672c} \u{44f} \u{1F600} caf\u{e9}", "kw": ["\u{1F600}", "\u{44f}"], "n": 2})]));
   if thorough {
     let shapes = [json!({"body": "a", "kw": "x", "n": 1}), json!({"body": "a b", "kw": "y", "n": 2}), json!({"body": "b b a", "kw": ["x", "y"]}), json!({"body": "c", "n": [2, 1]})];
     // every multiset of 2 of the 4 shapes and of 3 of the first 3 shapes
@@ -253,6 +255,18 @@ fn worlds(thorough: bool) -> Vec<FWorld> {
     // the multiset corpora of the thorough tier get the core shapes only
     let extra = thorough && !name.starts_with("ms");
     for (shape, history) in histories(&docs, dflt, extra) {
+      // quick tier (every CLI command is a process of ~0.1-0.2 CPU-s here): corpora `two` and
+      // `mixed3` get all 13 shapes, the others a subset; the thorough tier runs everything
+      let keep: Option<&[&str]> = match name.as_str() {
+        "utf8" => Some(&["add-commit", "upsert-later", "delete-later", "delete-readd", "split-compact"]),
+        "one" => Some(&["add-commit", "upsert-later", "delete-later", "uncommitted"]),
+        "dflt2" => Some(&["add-commit", "upsert-later", "upsert-same-batch", "dup-in-file", "split", "delete-later"]),
+        "ties3" => Some(&["add-commit", "upsert-later", "delete-later", "dup-in-file", "split", "split-compact", "split-delete-compact"]),
+        _ => None,
+      };
+      if !thorough && keep.map(|k| !k.contains(&shape.as_str())).unwrap_or(false) {
+        continue;
+      }
       out.push(FWorld { corpus: name.clone(), shape, default_schema: dflt, schema_json: if dflt { schema_default() } else { schema_kw() }, history });
     }
   }
@@ -291,6 +305,7 @@ fn requests(thorough: bool) -> Vec<Req> {
     r("qs", json!({"query": "a", "limit": 10, "return_stored": true}), Some(vec!["-q", "a", "--limit", "10", "--return-stored"]), false),
     r("qs-two-terms", json!({"query": "b a", "limit": 10, "return_stored": true}), Some(vec!["--query", "b a", "--limit", "10", "--return-stored"]), false),
     r("qs-field-negation", json!({"query": "body:a -b", "limit": 10, "return_stored": true}), Some(vec!["-q", "body:a -b", "--return-stored"]), false),
+    r("qs-utf8", json!({"query": "caf\u{e9} \u{65e5}\u{672c}", "limit": 10, "return_stored": true}), Some(vec!["-q", "caf\u{e9} \u{65e5}\u{672c}", "--return-stored"]), false),
     r("node-query-string", json!({"query": {"type": "query_string", "query": "a b"}, "limit": 10, "return_stored": true}), None, false),
     r("node-bool", json!({"query": {"type": "bool", "must": [{"type": "term", "field": "body", "value": "a"}], "must_not": [{"type": "term", "field": "body", "value": "c"}]}, "limit": 10, "return_stored": true}), None, false),
     r("sort-n-desc-kw", json!({"query": "a", "limit": 10, "return_stored": true, "sort": [{"field": "n", "order": "desc"}, {"field": "kw"}]}), Some(vec!["-q", "a", "--return-stored", "--sort", "n:desc,kw"]), false),
@@ -312,7 +327,6 @@ fn requests(thorough: bool) -> Vec<Req> {
     v.extend(vec![
       r("qs-phrase", json!({"query": "\"a b\"", "limit": 10, "return_stored": true}), Some(vec!["-q", "\"a b\"", "--return-stored"]), false),
       r("qs-none", json!({"query": "zzz", "limit": 10, "return_stored": true}), Some(vec!["-q", "zzz", "--return-stored"]), false),
-      r("qs-unicode", json!({"query": "caf\u{e9}", "limit": 10, "return_stored": true}), Some(vec!["-q", "caf\u{e9}", "--return-stored"]), false),
       r("node-match-all", json!({"query": {"type": "match_all"}, "limit": 10, "return_stored": true}), None, false),
       r("node-prefix", json!({"query": {"type": "prefix", "field": "body", "value": "ca"}, "limit": 10, "return_stored": false}), None, false),
       r("filter-range", json!({"query": {"type": "match_all"}, "limit": 10, "return_stored": false, "filter": {"And": [{"I64Range": {"field": "n", "min": 1, "max": 2}}, {"Not": {"KeywordEq": {"field": "kw", "value": "y"}}}]}}), None, false),
@@ -524,21 +538,116 @@ impl Drop for HttpFe {
   }
 }
 
+/// How the bytes of one request body reach the server.
+#[derive(Debug, Clone, PartialEq)]
+enum Delivery {
+  /// Content-Length, head and body in one write
+  Single,
+  /// Content-Length; head + body[..at] in one write, a pause, body[at..] in a second write
+  SplitWrite(usize),
+  /// Transfer-Encoding: chunked, two chunks body[..at] and body[at..]
+  Chunked2(usize),
+  /// Transfer-Encoding: chunked, chunks of this many bytes throughout
+  ChunkedN(usize),
+}
+
+impl Delivery {
+  fn to_json(&self) -> Value {
+    match self {
+      Delivery::Single => json!({"kind": "content-length"}),
+      Delivery::SplitWrite(at) => json!({"kind": "content-length-two-writes", "at": at}),
+      Delivery::Chunked2(at) => json!({"kind": "chunked-two-chunks", "at": at}),
+      Delivery::ChunkedN(n) => json!({"kind": "chunked-uniform", "size": n}),
+    }
+  }
+  fn from_json(v: &Value) -> Delivery {
+    let at = v["at"].as_u64().unwrap_or(0) as usize;
+    match v["kind"].as_str().unwrap_or("") {
+      "content-length-two-writes" => Delivery::SplitWrite(at),
+      "chunked-two-chunks" => Delivery::Chunked2(at),
+      "chunked-uniform" => Delivery::ChunkedN(v["size"].as_u64().unwrap_or(1) as usize),
+      _ => Delivery::Single,
+    }
+  }
+  fn kind(&self) -> &'static str {
+    match self {
+      Delivery::Single => "content-length",
+      Delivery::SplitWrite(_) => "content-length-two-writes",
+      Delivery::Chunked2(_) => "chunked-two-chunks",
+      Delivery::ChunkedN(_) => "chunked-uniform",
+    }
+  }
+}
+
 fn http_call(port: u16, method: &str, path: &str, ctype: Option<&str>, body: &[u8]) -> Result<(u16, Vec<u8>), String> {
+  http_deliver(port, method, path, ctype, body, &Delivery::Single)
+}
+
+fn chunked_body<'a>(chunks: impl Iterator<Item = &'a [u8]>) -> Vec<u8> {
+  let mut out = Vec::new();
+  for c in chunks {
+    if c.is_empty() {
+      continue;
+    }
+    out.extend_from_slice(format!("{:x}\r\n", c.len()).as_bytes());
+    out.extend_from_slice(c);
+    out.extend_from_slice(b"\r\n");
+  }
+  out.extend_from_slice(b"0\r\n\r\n");
+  out
+}
+
+fn http_deliver(port: u16, method: &str, path: &str, ctype: Option<&str>, body: &[u8], how: &Delivery) -> Result<(u16, Vec<u8>), String> {
   let mut st = TcpStream::connect(("127.0.0.1", port)).map_err(|e| format!("connect: {e}"))?;
   st.set_read_timeout(Some(Duration::from_secs(60))).ok();
   st.set_write_timeout(Some(Duration::from_secs(60))).ok();
+  st.set_nodelay(true).ok();
   let mut head = format!("{method} {path} HTTP/1.1\r\nHost: 127.0.0.1:{port}\r\nConnection: close\r\nAccept: */*\r\n");
   if let Some(c) = ctype {
     head.push_str(&format!("Content-Type: {c}\r\n"));
   }
-  if method == "POST" {
-    head.push_str(&format!("Content-Length: {}\r\n", body.len()));
+  // the writes: each element is handed to the socket separately, with a pause in between
+  let mut writes: Vec<Vec<u8>> = Vec::new();
+  match how {
+    Delivery::Single | Delivery::SplitWrite(_) => {
+      if method == "POST" {
+        head.push_str(&format!("Content-Length: {}\r\n", body.len()));
+      }
+      head.push_str("\r\n");
+      let mut first = head.into_bytes();
+      match how {
+        Delivery::SplitWrite(at) if *at > 0 && *at < body.len() => {
+          first.extend_from_slice(&body[..*at]);
+          writes.push(first);
+          writes.push(body[*at..].to_vec());
+        }
+        _ => {
+          first.extend_from_slice(body);
+          writes.push(first);
+        }
+      }
+    }
+    Delivery::Chunked2(at) => {
+      head.push_str("Transfer-Encoding: chunked\r\n\r\n");
+      let at = (*at).min(body.len());
+      let mut first = head.into_bytes();
+      first.extend(chunked_body([&body[..at], &body[at..]].into_iter()));
+      writes.push(first);
+    }
+    Delivery::ChunkedN(n) => {
+      head.push_str("Transfer-Encoding: chunked\r\n\r\n");
+      let mut first = head.into_bytes();
+      first.extend(chunked_body(body.chunks((*n).max(1))));
+      writes.push(first);
+    }
   }
-  head.push_str("\r\n");
-  let mut msg = head.into_bytes();
-  msg.extend_from_slice(body);
-  st.write_all(&msg).map_err(|e| format!("write: {e}"))?;
+  for (i, w) in writes.iter().enumerate() {
+    if i > 0 {
+      std::thread::sleep(Duration::from_millis(4));
+    }
+    st.write_all(w).map_err(|e| format!("write: {e}"))?;
+    st.flush().ok();
+  }
   let mut raw = Vec::new();
   st.read_to_end(&mut raw).map_err(|e| format!("read: {e}"))?;
   let split = raw.windows(4).position(|w| w == b"\r\n\r\n").ok_or_else(|| format!("no header end in {} bytes", raw.len()))?;
@@ -1339,6 +1448,142 @@ fn run_doc_family(env: &Env, only: Option<&str>) -> (u64, Vec<(String, Option<&'
 }
 
 // ---------------------------------------------------------------------------------------------
+// Body delivery family: the same ingest bytes under every delivery
+
+fn delivery_docs() -> Vec<Value> {
+  // 2-, 3- and 4-byte sequences in id, text and keyword values
+  vec![
+    json!({"_id": "\u{e9}", "body": "caf\u{e9} \u{65e5}\u{672c}", "kw": "\u{44f}", "n": 1}),
+    json!({"_id": "\u{1F600}", "body": "\u{65e5}\u{672c} \u{44f} b", "kw": ["\u{1F600}", "\u{65e5}"], "n": 2}),
+  ]
+}
+
+fn delivery_requests() -> Vec<Value> {
+  vec![
+    json!({"query": "caf\u{e9}", "limit": 10, "return_stored": true}),
+    json!({"query": "\u{65e5}\u{672c} \u{44f}", "limit": 10, "return_stored": true}),
+    json!({"query": {"type": "match_all"}, "limit": 10, "return_stored": true, "filter": {"KeywordEq": {"field": "kw", "value": "\u{44f}"}}, "sort": [{"field": "kw", "order": "desc"}]}),
+    json!({"query": {"type": "match_all"}, "limit": 10, "return_stored": false, "aggs": {"k": {"type": "terms", "field": "kw", "size": 5}}}),
+  ]
+}
+
+/// (endpoint, content type, body bytes)
+fn delivery_bodies() -> Vec<(&'static str, &'static str, Vec<u8>)> {
+  let docs = delivery_docs();
+  let nd: String = docs.iter().map(|d| format!("{d}\n")).collect();
+  vec![("/add", "application/x-ndjson", nd.into_bytes()), ("/bulk", "application/json", json!({"docs": docs}).to_string().into_bytes())]
+}
+
+/// Offsets strictly inside a multi-byte UTF-8 sequence.
+fn interior_offsets(body: &[u8]) -> Vec<usize> {
+  (1..body.len()).filter(|i| body[*i] & 0xC0 == 0x80).collect()
+}
+
+fn deliveries(body: &[u8], thorough: bool) -> Vec<Delivery> {
+  let mut v = vec![Delivery::Single];
+  // chunk boundary at EVERY byte offset (simplest witnesses first)
+  v.extend((1..body.len()).map(Delivery::Chunked2));
+  v.extend([Delivery::ChunkedN(1), Delivery::ChunkedN(2), Delivery::ChunkedN(3)]);
+  // two socket writes: every offset (thorough) / every offset inside a character plus a few others
+  if thorough {
+    v.extend((1..body.len()).map(Delivery::SplitWrite));
+  } else {
+    let mut at: BTreeSet<usize> = interior_offsets(body).into_iter().collect();
+    at.extend([1, body.len() / 2, body.len() - 1]);
+    v.extend(at.into_iter().map(Delivery::SplitWrite));
+  }
+  v
+}
+
+struct DeliveryRef {
+  model: BTreeMap<String, Value>,
+  expected: Vec<Out>,
+}
+
+fn delivery_reference() -> DeliveryRef {
+  let sc = Scratch::new("c25dlib");
+  let mut lib = LibFe::create(&sc.sub("lib"), &schema_kw(), false).unwrap_or_else(|e| vcore::ev::machinery_failure(&format!("C25 delivery family: {e}")));
+  let docs = delivery_docs();
+  if let Err(e) = lib.apply(&Op::Add(docs.clone())).and_then(|_| lib.apply(&Op::Commit)) {
+    vcore::ev::machinery_failure(&format!("C25 delivery family: library rejects the documents: {e}"));
+  }
+  let w = FWorld { corpus: "delivery".into(), shape: "add-commit".into(), default_schema: false, schema_json: schema_kw(), history: vec![Op::Add(docs), Op::Commit] };
+  let expected = delivery_requests().iter().map(|r| lib.search(r)).collect();
+  DeliveryRef { model: w.model_contents(), expected }
+}
+
+/// One (endpoint, delivery): fresh service and index, ingest, commit, compare. Err(what) on a
+/// disagreement with the library.
+fn check_delivery(env: &Env, rf: &DeliveryRef, endpoint: &str, ctype: &str, body: &[u8], how: &Delivery) -> Result<(), String> {
+  let sc = Scratch::new("c25d");
+  let dir = sc.sub("http");
+  let fe = env.http.serve(&dir);
+  fe.init(&dir, &schema_kw()).map_err(|e| format!("init failed: {e}"))?;
+  let (st, b) = http_deliver(fe.port, "POST", endpoint, Some(ctype), body, how).unwrap_or_else(|e| vcore::ev::machinery_failure(&format!("HTTP transport failure on POST {endpoint} ({how:?}): {e}")));
+  let v: Value = serde_json::from_slice(&b).unwrap_or(Value::Null);
+  let n = delivery_docs().len() as u64;
+  if !(200..300).contains(&st) {
+    return Err(format!("the library accepts the {n} documents but POST {endpoint} answers status {st}: {}", first_line(&String::from_utf8_lossy(&b))));
+  }
+  if v["queued"].as_u64() != Some(n) {
+    return Err(format!("POST {endpoint} of {n} documents answers {v}"));
+  }
+  fe.apply(&Op::Commit).map_err(|e| format!("commit after ingest failed: {e}"))?;
+  let ma = json!({"query": {"type": "match_all"}, "limit": 100, "return_stored": true});
+  let got = contents_of(&fe.search(&ma))?;
+  if got != rf.model {
+    return Err(format!("match_all stored contents {} differ from the documents sent (and from the library's) {}", json!(got), json!(rf.model)));
+  }
+  for (r, exp) in delivery_requests().iter().zip(&rf.expected) {
+    compare_pages(r, std::slice::from_ref(exp), &[fe.search(r)], false).map_err(|m| format!("request {r}: {m}"))?;
+  }
+  Ok(())
+}
+
+#[derive(Default)]
+struct DeliveryStats {
+  evals: u64,
+  by_kind: BTreeMap<String, u64>,
+  interior_boundaries: u64,
+  body_len: BTreeMap<String, usize>,
+  failures: Vec<(String, Value)>,
+}
+
+fn run_delivery_family(env: &Env, thorough: bool) -> DeliveryStats {
+  let rf = delivery_reference();
+  for e in &rf.expected {
+    if !matches!(e, Out::Ok(_)) {
+      vcore::ev::machinery_failure(&format!("C25 delivery family: library reference is not an answer: {e:?}"));
+    }
+  }
+  let mut st = DeliveryStats::default();
+  let mut cases: Vec<(&'static str, &'static str, Vec<u8>, Delivery)> = Vec::new();
+  for (ep, ct, body) in delivery_bodies() {
+    st.body_len.insert(ep.to_string(), body.len());
+    let inner: BTreeSet<usize> = interior_offsets(&body).into_iter().collect();
+    for d in deliveries(&body, thorough) {
+      *st.by_kind.entry(format!("{ep} {}", d.kind())).or_insert(0) += 1;
+      if matches!(&d, Delivery::Chunked2(at) | Delivery::SplitWrite(at) if inner.contains(at)) || matches!(d, Delivery::ChunkedN(_)) {
+        st.interior_boundaries += 1;
+      }
+      cases.push((ep, ct, body.clone(), d));
+    }
+  }
+  st.evals = cases.len() as u64;
+  let res: Vec<Option<String>> = cases.par_iter().map(|(ep, ct, body, d)| check_delivery(env, &rf, ep, ct, body, d).err()).collect();
+  for ((ep, _, body, d), r) in cases.iter().zip(res) {
+    if let Some(m) = r {
+      let ctx = match d {
+        Delivery::Chunked2(at) | Delivery::SplitWrite(at) => format!(" (boundary after byte {at}: ...{:?} | {:?}...)", String::from_utf8_lossy(&body[at.saturating_sub(6)..*at]), String::from_utf8_lossy(&body[*at..(*at + 6).min(body.len())])),
+        _ => String::new(),
+      };
+      st.failures.push((format!("[delivery:{ep}:{}] documents {} sent to POST {ep} as {}{ctx}: {m}", d.kind(), json!(delivery_docs()), d.to_json()), json!({"engine": "frontmc", "delivery": {"endpoint": ep, "how": d.to_json()}})));
+    }
+  }
+  st
+}
+
+// ---------------------------------------------------------------------------------------------
 
 fn replay_verdict(path: &str, a: Option<String>, b: Option<String>) -> i32 {
   if a.is_some() != b.is_some() {
@@ -1380,6 +1625,17 @@ pub fn run(ctx: &Ctx) -> i32 {
       let (a, b) = (run(), run());
       return replay_verdict(path, a, b);
     }
+    if cs["delivery"].is_object() {
+      let ep = cs["delivery"]["endpoint"].as_str().unwrap_or("/add").to_string();
+      let how = Delivery::from_json(&cs["delivery"]["how"]);
+      let rf = delivery_reference();
+      let run = || {
+        let (e, ct, body) = delivery_bodies().into_iter().find(|b| b.0 == ep).unwrap_or_else(|| vcore::ev::machinery_failure("unknown endpoint in replay file"));
+        check_delivery(&env, &rf, e, ct, &body, &how).err()
+      };
+      let (a, b) = (run(), run());
+      return replay_verdict(path, a, b);
+    }
     let w = FWorld::from_json(&cs["world"]);
     let check = cs["check"].as_str().unwrap_or("").to_string();
     let reqs: Vec<Req> = requests(true).into_iter().filter(|r| check.split(':').nth(1).map(|n| n == r.name).unwrap_or(false)).collect();
@@ -1388,6 +1644,13 @@ pub fn run(ctx: &Ctx) -> i32 {
     return replay_verdict(path, a, b);
   }
 
+  // the body-delivery family runs first
+  let dl = run_delivery_family(&env, !quick);
+  rep.add_evals(dl.evals);
+  for (what, case) in &dl.failures {
+    rep.fail(None, what, case.clone());
+  }
+  let delivery_wall = rep.elapsed_s();
   let ws = worlds(!quick);
   let reqs = requests(!quick);
   let deadline = std::env::var("VERIF_C25_BUDGET_S").ok().and_then(|x| x.parse::<f64>().ok()).unwrap_or(if quick { 30.0 } else { 540.0 });
@@ -1448,6 +1711,7 @@ pub fn run(ctx: &Ctx) -> i32 {
     "request_names" => reqs.iter().map(|r| r.name.clone()).collect::<Vec<_>>(),
     "comparisons_by_front_end" => by_fe.lock().clone(),
     "documented_invocations" => doc_evals,
+    "delivery_family" => json!({"rule": "for POST /add (NDJSON) and POST /bulk: the body of 2 documents with 2-, 3- and 4-byte UTF-8 sequences in id, text and keyword values, delivered as Content-Length in one write; Transfer-Encoding: chunked with two chunks split at EVERY byte offset; chunked with uniform chunk sizes 1, 2, 3; Content-Length in two socket writes (TCP_NODELAY, 4 ms pause) split at every offset inside a multi-byte character plus 3 others (quick) / at every offset (thorough). Each delivery: fresh service + index, ingest, commit, then status class, match_all stored contents and 4 search responses (text, filter+sort, aggregation) must equal the library's for the same documents.", "cases": dl.evals, "by_endpoint_and_kind": dl.by_kind, "body_bytes": dl.body_len, "boundaries_inside_a_character": dl.interior_boundaries, "failures": dl.failures.len(), "wall_s": delivery_wall}),
     "observed_outcomes" => outcomes.lock().clone(),
     "distinct_observed_outcomes" => n_out,
     "cli_build_s" => build_s,
@@ -1461,6 +1725,7 @@ pub fn run(ctx: &Ctx) -> i32 {
     "the FFI does not document whether stored fields are returned: when it returns none they are not compared".into(),
     "cursor strings are opaque: only their presence is compared; each front end walks with its own cursors".into(),
     "error messages are not compared, only error vs. answer".into(),
+    "request bodies containing invalid UTF-8 are left out: the documentation is silent and the front ends already differ by design (the CLI's file read rejects them, the FFI converts lossily)".into(),
     "document ids have no surrounding whitespace or control characters (the CLI ids file is line based)".into(),
   ])
 }
